@@ -1,5 +1,7 @@
 (* Proofs about Host/ServoFloat.v: the two linear maps of Servo in binary64.
-   - refutations (witnesses computed): within-bounds arguments whose image leaves the configured bounds by an ulp;
+   - after the repair of F-C19-servo-bound-ulp the interpolated value is clamped: angle and pulse stay within the configured
+     bounds EXACTLY for every calibration with min < max (no guard); the raw interpolation still leaves them by an ulp on
+     the old witnesses (computed), so the clamp is what does it; inside the old guard the clamp never bites;
    - what stays exact: the commanded coordinate is stored as given (write/read, write_us/read_us round-trip),
      failing calls change nothing, the configuration never changes. *)
 From Coq Require Import ZArith QArith Lia Lqa List Bool.
@@ -18,7 +20,8 @@ Definition angle_witness : servo :=
 Lemma pulse_witness_facts :
   is_b64 (min_p pulse_witness) = true /\ is_b64 (max_p pulse_witness) = true /\
   min_p pulse_witness < max_p pulse_witness /\
-  max_p pulse_witness < a2p_fl pulse_witness 180 /\
+  max_p pulse_witness < a2p_raw_fl pulse_witness 180 /\
+  a2p_fl pulse_witness 180 = max_p pulse_witness /\
   servo_top_exact pulse_witness = false /\
   sstep_fl pulse_witness (SWrite (PI 180)) =
     (set_pos pulse_witness 180 (a2p_fl pulse_witness 180), [SLvl 180 (a2p_fl pulse_witness 180)], Ok SNone).
@@ -27,7 +30,8 @@ Proof. vm_compute. repeat split; try reflexivity; intro H; discriminate H. Qed.
 Lemma angle_witness_facts :
   is_b64 (min_a angle_witness) = true /\ is_b64 (max_a angle_witness) = true /\
   min_a angle_witness < max_a angle_witness /\
-  max_a angle_witness < p2a_fl angle_witness 2400 /\
+  max_a angle_witness < p2a_raw_fl angle_witness 2400 /\
+  p2a_fl angle_witness 2400 = max_a angle_witness /\
   servo_top_exact angle_witness = false.
 Proof. vm_compute. repeat split; try reflexivity; intro H; discriminate H. Qed.
 
@@ -123,38 +127,49 @@ Proof.
   - apply Qle_trans with (fl (lo_out + fl W)); [apply fl_mono; lra | exact G].
 Qed.
 
-(* the bound clauses of C19 on the binary64 object, and the guard on its (constant) calibration *)
+(* the bound clauses of C19 on the binary64 object *)
 Definition servo_bounds_fl (s : servo) : Prop :=
   (min_a s <= cur_a s /\ cur_a s <= max_a s) /\ (min_p s <= cur_p s /\ cur_p s <= max_p s).
 
-Definition servo_guard (s : servo) : Prop :=
-  min_a s < max_a s /\ min_p s < max_p s /\
-  is_b64 (min_a s) = true /\ is_b64 (min_p s) = true /\ servo_top_ok s = true.
+(* the clamped map lands within [lo_out, hi_out] for EVERY argument and every calibration with lo_out <= hi_out *)
+Lemma lin_clamped_fl_bounds lo_in hi_in lo_out hi_out x :
+  lo_out <= hi_out ->
+  lo_out <= lin_clamped_fl lo_in hi_in lo_out hi_out x /\ lin_clamped_fl lo_in hi_in lo_out hi_out x <= hi_out.
+Proof. intro H. unfold lin_clamped_fl. apply qclamp_bounds. exact H. Qed.
 
-Lemma step_bounds_fl s op :
-  servo_guard s -> servo_bounds_fl s ->
-  servo_bounds_fl (sstate (sstep_fl s op)) /\ servo_guard (sstate (sstep_fl s op)).
+(* inside the old guard the clamp never bites: the repaired map is the old one there *)
+Lemma lin_clamped_fl_id lo_in hi_in lo_out hi_out x :
+  lo_in < hi_in -> lo_out <= hi_out -> lo_in <= x -> x <= hi_in ->
+  is_b64 lo_out = true -> top_ok lo_out hi_out = true ->
+  lin_clamped_fl lo_in hi_in lo_out hi_out x = lin_fl lo_in hi_in lo_out hi_out x.
 Proof.
-  intros (GA & GP & BA & BP & GT) Hb. unfold servo_top_ok in GT. apply andb_true_iff in GT as [TA TP].
-  assert (G : servo_guard s).
-  { repeat split; try assumption. unfold servo_top_ok. rewrite TA, TP. reflexivity. }
+  intros A B C D E F. unfold lin_clamped_fl. apply qclamp_id.
+  exact (lin_fl_bounds lo_in hi_in lo_out hi_out x A B C D E F).
+Qed.
+
+(* one call, successful or failing, from any state of any calibration the constructor accepts (min < max) *)
+Lemma step_bounds_fl s op :
+  servo_cfg_ok s -> servo_bounds_fl s ->
+  servo_bounds_fl (sstate (sstep_fl s op)) /\ servo_cfg_ok (sstate (sstep_fl s op)).
+Proof.
+  intros [GA GP] Hb. assert (G : servo_cfg_ok s) by (split; assumption).
   destruct op as [v|v| |]; cbn [sstep_fl sstep].
   - destruct (py_between (min_a s) (max_a s) v) as [[|]|] eqn:E; cbn [sstate fst]; try (split; assumption).
     apply between_true in E as [E1 E2]. split; [|exact G].
     unfold servo_bounds_fl, set_pos. cbn [min_a max_a min_p max_p cur_a cur_p].
     split; [split; assumption|]. unfold a2p_fl. rewrite Qred_correct.
-    apply lin_fl_bounds; try assumption. lra.
+    apply lin_clamped_fl_bounds. lra.
   - destruct (py_between (min_p s) (max_p s) v) as [[|]|] eqn:E; cbn [sstate fst]; try (split; assumption).
     apply between_true in E as [E1 E2]. split; [|exact G].
     unfold servo_bounds_fl, set_pos. cbn [min_a max_a min_p max_p cur_a cur_p].
     split; [|split; assumption]. unfold p2a_fl. rewrite Qred_correct.
-    apply lin_fl_bounds; try assumption. lra.
+    apply lin_clamped_fl_bounds. lra.
   - cbn [sstate fst]. split; assumption.
   - cbn [sstate fst]. split; assumption.
 Qed.
 
 Lemma run_bounds_fl ops : forall s,
-  servo_guard s -> servo_bounds_fl s -> servo_bounds_fl (srun_fl ops s) /\ servo_guard (srun_fl ops s).
+  servo_cfg_ok s -> servo_bounds_fl s -> servo_bounds_fl (srun_fl ops s) /\ servo_cfg_ok (srun_fl ops s).
 Proof.
   induction ops as [|op ops IH]; intros s G B.
   - split; assumption.
@@ -162,16 +177,27 @@ Proof.
     destruct (step_bounds_fl s op G B) as [B' G']. apply IH; assumption.
 Qed.
 
+(* ... hence after every history from every accepted constructor call *)
+Lemma reachable_bounds_fl a s0 ops : servo_ctor a = inl s0 -> servo_bounds_fl (srun_fl ops s0).
+Proof.
+  intro H. apply ctor_accepts in H as (_ & _ & _ & _ & _ & Ea & Ep & [GA GP]).
+  apply run_bounds_fl; [split; assumption|].
+  unfold servo_bounds_fl. rewrite Ea, Ep. repeat split; lra.
+Qed.
+
 (* a freshly constructed servo (angle = min_angle, pulse = min_pulse) satisfies the bound clauses *)
 Lemma fresh_bounds_fl pin mina maxa minp maxp :
   mina < maxa -> minp < maxp -> servo_bounds_fl (mkServo pin mina maxa minp maxp mina minp).
 Proof. intros A P. unfold servo_bounds_fl. cbn. repeat split; lra. Qed.
 
-(* non-vacuity: the default calibration and a one-decimal calibration are inside the guard *)
-Lemma guard_nonvacuous :
-  servo_guard (mkServo (PI 9) 0 180 544 2400 0 544) /\
-  servo_guard (mkServo (PI 9) (fl (1 # 10)) (fl (1799 # 10)) (fl (5445 # 10)) (fl (24003 # 10)) (fl (1 # 10)) (fl (5445 # 10))) /\
-  servo_top_ok pulse_witness = false /\ servo_top_ok angle_witness = false.
+(* non-vacuity: the old witnesses are accepted calibrations outside the old guard; after the repaired write the
+   object is within its bounds, on the bound exactly *)
+Lemma repaired_witnesses :
+  servo_cfg_ok pulse_witness /\ servo_cfg_ok angle_witness /\
+  servo_top_ok pulse_witness = false /\ servo_top_ok angle_witness = false /\
+  cur_p (sstate (sstep_fl pulse_witness (SWrite (PI 180)))) = max_p pulse_witness /\
+  cur_a (sstate (sstep_fl angle_witness (SWriteUs (PI 2400)))) = max_a angle_witness /\
+  servo_top_ok (mkServo (PI 9) 0 180 544 2400 0 544) = true.
 Proof. vm_compute. repeat split; try reflexivity; intro H; discriminate H. Qed.
 
 (* the results of [fl] are binary64 numbers: rounding again changes nothing; hence the executable guard of the
